@@ -6,10 +6,12 @@ Line-protocol driver for C07 (timelines).  One operation per line, one canonical
   sim <unit|~> <start> <stop> <dur> <dt>                       the sim's own timeline (asis), plus the spec variant's npts
   mod <unit|~> <start> <stop> <dur> <dt> <munit> <mstart> <mstop> <mdt>     a module's timeline in that sim
   grid <start> <stop> <dt>                                      int((stop-start)/dt): asis (software float), spec (exact), Lean Float
+  update <F|N|T> <self 4> <kwargs 4> <pars 4> <0|1> <parent 4>   Time.update on (start stop dt unit); unit `_` = None
+  now <npts> <ti>                                               index Time.now reads
   consts                                                        the regenerated constants the model was built with
   ord <date> | cal <n> | addm <date> <k> | y2d <year> | d2y <date> | rd <x>      calendar / float primitives
 
-module unit `_` = not given; numbers: `p/q` or `p` (the decimal the harness wrote); dates: `Dyyyy-mm-dd`; absent: `none`; the empty unit string: `~`.
+module unit `_` = not given; numbers: `p/q` or `p` (a Python float) or `12i` (a Python int) (the decimal the harness wrote); dates: `Dyyyy-mm-dd`; absent: `none`; the empty unit string: `~`.
 Vectors are printed in units of time_eps (integers, after round_tvec) or as ISO dates.
 -/
 open StarsimModel StarsimModel.Calendar StarsimModel.Timeline StarsimModel.Proto
@@ -23,7 +25,9 @@ def parseDate? (s : String) : Option Date :=
     | _ => none
   else none
 
-def parseNum? (s : String) : Option Num := (parseRat? s).map Num.ofRat
+/-- `12i` = the Python int 12; anything else a Python float written as a decimal -/
+def parseNum? (s : String) : Option Num :=
+  if s.endsWith "i" then ((s.dropEnd 1).toString.toInt?).map Num.ofInt else (parseRat? s).map Num.ofRat
 
 def parseTVal? (s : String) : Option TVal :=
   match parseDate? s with
@@ -36,7 +40,8 @@ def parseOpt {α} (f : String → Option α) (s : String) : Option (Option α) :
 def parseUnitStr (s : String) : String := if s = "~" then "" else s
 
 def showErr : Err → String
-  | .value => "E:Value" | .key => "E:Key" | .type => "E:Type" | .other => "E:Other" | .unsupported => "unsupported"
+  | .value => "E:Value" | .key => "E:Key" | .type => "E:Type" | .other => "E:Other" | .hang => "E:Hang"
+  | .unsupported => "unsupported"
 
 def showMicros (l : List Rat) : String := showList (fun x => toString (micro x)) l
 
@@ -57,6 +62,22 @@ def showNpts (r : Except Err Timeline) : String :=
 
 def parseSim? (u st sp du dt : String) : Option SimPars := do
   some ⟨parseUnitStr u, ← parseOpt parseTVal? st, ← parseOpt parseTVal? sp, ← parseOpt parseNum? du, ← parseNum? dt⟩
+
+def showNum (x : Num) : String := showRat x.q ++ (if x.int then "i" else "")
+def showTVal : TVal → String
+  | .num x => showNum x
+  | .date d => "D" ++ d.iso
+def showOpt {α} (f : α → String) : Option α → String
+  | none => "none" | some a => f a
+def showUnitOpt : Option String → String
+  | none => "_" | some "" => "~" | some u => u
+def parseUnitOpt (s : String) : Option String := if s = "_" then none else some (parseUnitStr s)
+
+def parseTPars? (a b c d : String) : Option TPars := do
+  some ⟨← parseOpt parseTVal? a, ← parseOpt parseTVal? b, ← parseOpt parseNum? c, parseUnitOpt d⟩
+
+def parseForce? (s : String) : Option Force :=
+  if s = "F" then some .onlyMissing else if s = "N" then some .current else if s = "T" then some .parent else none
 
 def stepLine (_ : Unit) (line : String) : Unit × String :=
   ((), match words line with
@@ -86,6 +107,15 @@ def stepLine (_ : Unit) (line : String) : Unit × String :=
       | some y => if y < 1 then "bad-op" else s!"{(yearToDate .asis y).iso} {(yearToDate .spec y).iso}"
       | none => "bad-op"
   | ["d2y", d] => match parseDate? d with | some d => showRat (dateToYearNum d).f | none => "bad-op"
+  | ["update", f, a1, a2, a3, a4, k1, k2, k3, k4, p1, p2, p3, p4, hasParent, q1, q2, q3, q4] =>
+      match parseForce? f, parseTPars? a1 a2 a3 a4, parseTPars? k1 k2 k3 k4, parseTPars? p1 p2 p3 p4, parseTPars? q1 q2 q3 q4 with
+      | some f, some self, some kw, some pars, some par =>
+          let r := update f self kw pars (if hasParent = "1" then some par else none)
+          s!"upd start={showOpt showTVal r.start} stop={showOpt showTVal r.stop} dt={showOpt showNum r.dt} unit={showUnitOpt r.unit} ready={showBool r.ready}"
+      | _, _, _, _, _ => "bad-op"
+  | ["now", n, ti] => match n.toNat?, ti.toNat? with
+      | some n, some ti => toString (nowIndex n ti)
+      | _, _ => "bad-op"
   | ["consts"] =>
       let us := ",".intercalate (Gen.timeUnits.map (fun r => s!"{r.1}:{showRat r.2}"))
       s!"consts units={us} dur={showRat Gen.defaultDur} unit={Gen.defaultUnit} year={Gen.defaultStartYear} date={Gen.defaultStartDate.1}-{Gen.defaultStartDate.2.1}-{Gen.defaultStartDate.2.2} decimals={Gen.roundDecimals} dt={showRat Gen.simDefaultDt}"
